@@ -11,10 +11,11 @@ Local Open Scope nat_scope.
      workers ran to completion one at a time in `order`; then the last
      transaction was dispatched and ran (deterministic; the model follows the
      same schedule, which matters for blocks with a world read lock);
-   SPicks ps: some interleaving at access granularity chosen by the harness
-     gates / the Go scheduler; the model runs the interleaving picked by ps
-     (at every step the (k mod m)-th of the m enabled actors moves). *)
-Inductive sched := SSerial (order : list nat) | SPicks (picks : list N).
+   SPicks seed: some interleaving at access granularity chosen by the harness
+     gates / the Go scheduler; the model runs a pseudo-random interleaving
+     derived from seed (at every step the (x mod m)-th of the m enabled actors
+     moves, x from a linear congruential generator). *)
+Inductive sched := SSerial (order : list nat) | SPicks (seed : N).
 
 (* input: concurrency level, initial balances (index = account, 0 = system
    account), transactions (lock requests as passed to ctx.GetFuture + program),
@@ -41,20 +42,19 @@ Definition ozs_eqb (a : option (list Z)) (b : list Z) : bool :=
 Definition fuel_of (txs : list (list lockreq * list instr)) : nat :=
   fold_left (fun acc x => acc + 6 * length (snd x) + 8) txs 8.
 
-(* interleaving picked by numbers; once they are used up the first enabled actor moves *)
-Fixpoint guided (txs : list tx) (g : gstate) (picks : list nat) (fuel : nat) : gstate :=
+Definition lcg (x : N) : N := ((x * 1103515245 + 12345) mod 2147483648)%N.
+
+(* pseudo-random interleaving *)
+Fixpoint guided (txs : list tx) (g : gstate) (x : N) (fuel : nat) : gstate :=
   match fuel with
   | O => g
   | S f =>
       match enabled txs g with
       | [] => g
       | a0 :: en =>
-          let (a, rest) := match picks with
-                           | [] => (a0, [])
-                           | k :: r => (nth (k mod (length (a0 :: en))) (a0 :: en) a0, r)
-                           end in
+          let a := nth (N.to_nat ((x / 65536) mod (N.of_nat (length (a0 :: en))))%N) (a0 :: en) a0 in
           match step txs g a with
-          | Some g' => guided txs g' rest f
+          | Some g' => guided txs g' (lcg x) f
           | None => g
           end
       end
@@ -103,7 +103,7 @@ Definition check (c : case) : bool :=
       let fuel := fuel_of ctxs in
       let g := match s with
                | SSerial order => run_serial txs (init_state level w0) order fuel
-               | SPicks ps => guided txs (init_state level w0) (map N.to_nat ps) fuel
+               | SPicks seed => guided txs (init_state level w0) (lcg seed) fuel
                end in
       (* the hypothesis of the theorems: programs touch only what they declared *)
       forallb (fun x => forallb (instr_ok (mk_tx x)) (snd x)) ctxs &&
